@@ -90,6 +90,10 @@ func (fx *FuncExec) call(ps *pathState, x *ssa.Call) {
 			fx.havocReachable(st, a)
 		}
 		fx.havocGlobals(st)
+		if callHasRefArgs(append(args, bindings...)) {
+			// the callee may write objects we only know by reference
+			st.bumpEpoch()
+		}
 		result = st.freshVal(x.Type(), x.Name(), 0)
 	}
 	st.regs[x] = result
@@ -442,6 +446,7 @@ func (fx *FuncExec) havocGlobals(st *State) {
 
 // havocHeap: everything that is not a local variable cell of this activation.
 func (fx *FuncExec) havocHeap(st *State) {
+	st.bumpEpoch()
 	local := map[ObjID]bool{}
 	for v, r := range st.regs {
 		if a, ok := v.(*ssa.Alloc); ok && (!a.Heap || !fx.capturedWritable(a)) {
@@ -1203,6 +1208,22 @@ func freeVarAssigned(fn *ssa.Function, fv *ssa.FreeVar, depth int) bool {
 			}
 		default:
 			return true
+		}
+	}
+	return false
+}
+
+func callHasRefArgs(args []Val) bool {
+	for _, a := range args {
+		switch v := a.(type) {
+		case PtrV, IfaceV, MapV, FuncV:
+			return true
+		case SliceV:
+			return true
+		case StructV:
+			if callHasRefArgs(v.F) {
+				return true
+			}
 		}
 	}
 	return false
